@@ -1291,6 +1291,15 @@ impl<'a> TypedArrayAccessor<'a> {
                 acc.update(&value);
             }
             TypedArrayAccessor::Other(arr) => {
+                // COUNT needs only the cell's null-ness, which every type
+                // carries; extract_scalar renders a type it has no arm for
+                // as Null, so COUNT over e.g. a Timestamp column was 0.
+                if let AccumulatorState::Count(c) = acc {
+                    if arr.data_type() != &DataType::Null && arr.is_valid(row) {
+                        *c += 1;
+                    }
+                    return;
+                }
                 let value = extract_scalar(arr, row);
                 acc.update(&value);
             }
@@ -1753,6 +1762,24 @@ impl AggregationState {
                 t.elapsed().as_nanos() as u64,
                 std::sync::atomic::Ordering::Relaxed,
             );
+        }
+
+        // Every value below travels as a ScalarValue (group keys, MIN/MAX/
+        // ANY_VALUE state, SUM/AVG input). Refuse a type extract_scalar cannot
+        // represent instead of treating each of its cells as NULL; callers
+        // with a generic path fall back to it on this error.
+        let valued_inputs = agg_arrays
+            .iter()
+            .zip(&self.agg_funcs)
+            .filter(|(_, f)| !matches!(f, AggregateFunction::Count))
+            .map(|(a, _)| a);
+        for array in group_arrays.iter().chain(valued_inputs) {
+            if !scalar_representable(array.data_type()) {
+                return Err(QueryError::NotImplemented(format!(
+                    "Morsel aggregation over a {:?} value",
+                    array.data_type()
+                )));
+            }
         }
 
         // Pre-downcast for typed access
@@ -2978,6 +3005,17 @@ pub(crate) fn build_output_raw_entries(
 
         RecordBatch::try_new(schema.clone(), arrays)
             .map_err(|e| QueryError::Execution(format!("Failed to build output batch: {}", e)))
+    }
+}
+
+/// Whether `extract_scalar` / `TypedArrayAccessor::extract_scalar` have an
+/// arm for this type (an all-NULL `Null` array is exact through the default).
+fn scalar_representable(data_type: &DataType) -> bool {
+    use DataType::*;
+    match data_type {
+        Null | Boolean | Utf8 | Date32 | Float32 | Float64 | Decimal128(_, _) => true,
+        Dictionary(k, v) => **k == Int32 && **v == Utf8,
+        other => other.is_integer(),
     }
 }
 
